@@ -80,6 +80,8 @@ def custom_entries(r, n):
         init = r.randrange(0, 1 << W)
         refin, refout = [(False, False), (True, True), (True, False), (False, True)][k % 4]
         xo = r.choice([1, 1 << (W - 1), (1 << (W - 1)) | 2 if W > 2 else 1, r.randrange(0, 1 << W)])      # mostly not bit-palindromic
+        if refout and xo == int(format(xo, f"0{W}b")[::-1], 2):
+            xo = 1 if W > 1 else xo                                                                     # reflected output: never palindromic
         name = f"custom:{W}:{poly:#x}:{init:#x}:{int(refin)}:{int(refout)}:{xo:#x}"
         out.append((name, resolve(name)))
     return out
@@ -474,7 +476,8 @@ def main(tier, seed):
         # z3 does not finish the XOR-network equivalence for 16-bit words on registers wider than 16 bits
         dws = tuple(d for d in dws if d < 16 or a.crc_width <= (8 if tier == "quick" else 16))
         if name.startswith("custom:"):
-            dws = tuple(sorted({min(d, 8) for d in dws}))
+            # a data width that divides the CRC width (so that the match / residue obligations apply), a narrower and a wider one
+            dws = tuple(sorted({1, min(a.crc_width, 8), 8}))
         jobs.append({"id": f"cat-{name}", "what": "entry", "name": name, "dws": dws, "check": sys_path_checks.get(name)})
     results, stats = run.run_jobs(job_fn, jobs)
     rep.add(results, stats)
